@@ -209,6 +209,7 @@ def _jobs(tier):
         add(n=6, trading='3m', data=[], fast=True, free_open=[3], warm=3)
         add(n=4, trading='1m', data=['3m'], fast=False, free_open=[], warm=0)
         add(n=5, trading='1m', data=['3m'], fast=False, free_open=[], warm=3, entry=True)  # a fill inside a minute publishes a partial candle
+        add(n=4, trading='1m', data=['3m'], fast=False, free_open=[], warm=0, entry=True)  # a fill inside the very first window, no warm-up (seed C07e)
         add(n=6, trading='3m', data=['5m'], fast=True, free_open=[], warm=15)  # route timeframes that are not multiples of each other
         add(n=7, trading='3m', data=[], fast=True, free_open=[], warm=0)  # session length that is not a multiple of the fast-mode step
     else:
@@ -219,6 +220,8 @@ def _jobs(tier):
             add(n=8, trading='3m', data=['5m'], fast=fast, free_open=[], warm=15)
             add(n=5, trading='1m', data=['3m'], fast=fast, free_open=[1], warm=3, entry=True)
         add(n=4, trading='1m', data=['3m'], fast=False, free_open=[], warm=0)
+        add(n=5, trading='1m', data=['3m'], fast=False, free_open=[], warm=0, entry=True)
+        add(n=5, trading='1m', data=['3m'], fast=True, free_open=[], warm=0, entry=True)
         add(n=6, trading='3m', data=[], fast=True, free_open=[], warm=0)
         add(n=7, trading='3m', data=[], fast=True, free_open=[], warm=0)
         add(n=8, trading='3m', data=[], fast=True, free_open=[4], warm=3)
